@@ -354,6 +354,11 @@ func (w *Worker) Exec(j *Job) Result {
 		delete(w.procs, j.Node)
 		w.pool.Respawns.Add(1)
 	}
+	if res.Status == "timeout" && !(res.Exit == 1 && bytes.HasSuffix(bytes.TrimRight(res.Stdout, "\n"), []byte("timeout"))) {
+		// a timer fired during the run, but the process did not end the way the properties
+		// define a hang (exit status 1 after printing `timeout`): some other timer
+		res.Status = "exit"
+	}
 	if res.Status == "stuck" {
 		// nothing ticked, nothing was schedulable and nothing exited for 90 s of real time:
 		// the simulator lost track of the run. That is trouble of the machinery, never a verdict.
